@@ -181,3 +181,65 @@ def check_hashmod(ctx, m, cfg, only_fns=None, rule="R-SIB"):
                                   "%s: the hash probe starts at key %% %s (%s) but wraps around at %s; slots beyond the starting modulus are never "
                                   "scanned / may lie outside the table" % (src, _name_of(f, i0.ops[1]), i0.where(), _name_of(f, s.ops[1])), s.where(), inst)
     return n
+
+
+# ---------------------------------------------------------------------------------------------------------------
+# R-SIB candbbox: a loop and the bounding box it was tested with stay together.
+#   if (pointInsideLinkedGeoLoop(P->first, BOX, v)) { candidates[c] = P; candidateBBoxes[c] = BOX'; }     requires BOX' == BOX
+#   pointInsideLinkedGeoLoop(polygons[X]->first, bboxes[Y], v)                                            requires X == Y
+# (findDeepestContainer / countContainers re-test candidates against each other with the stored boxes; a box of another polygon
+#  makes the containment count wrong and the hole is attached to the wrong polygon.)
+def check_candbbox(ctx, m, cfg, rule="R-SIB"):
+    n = 0
+    for f in m.defined():
+        for c in f.all_insts():
+            if c.op != "call" or c.callee != "pointInsideLinkedGeoLoop" or len(c.ops) < 3:
+                continue
+            box = _strip(f, c.ops[1])
+            lp = _strip(f, c.ops[0])
+            # (b) arrays indexed in lockstep: loop = load(load(polygons[X])->first), box = load(bboxes[Y])
+            def arr_index(o, depth=0):
+                """(array base operand, index operand) when o is (a field of) an element loaded from base[idx]"""
+                o = _strip(f, o)
+                if o[0] != "i" or depth > 4:
+                    return None
+                i = f.insts[o[1]]
+                if i.op == "load":
+                    p = _strip(f, i.ops[0])
+                    if p[0] == "i" and f.insts[p[1]].op == "getelementptr":
+                        g = f.insts[p[1]]
+                        if len(g.ops) == 2:
+                            return (_strip(f, g.ops[0]), _strip(f, g.ops[1]))
+                        return arr_index(g.ops[0], depth + 1)          # a struct field of a loaded element
+                return None
+            la, ba = arr_index(c.ops[0]), arr_index(c.ops[1])
+            if la is not None and ba is not None and la[0] != ba[0]:
+                n += 1
+                inst = {"function": c.src_fn, "at": c.where(), "form": "parallel arrays", "config": cfg}
+                if la[1] == ba[1]:
+                    ctx.ok(rule, inst, "the loop and the bounding box passed to pointInsideLinkedGeoLoop come from the same position of their arrays")
+                else:
+                    ctx.violation(rule, "candbbox:%s:index" % c.src_fn, "%s tests a loop against the bounding box of a different array position (the arrays are filled in lockstep)" % c.src_fn, c.where(), inst)
+            # (a) candidate collection guarded by the call
+            t = c.block.term
+            if t.op != "br" or len(t.ops) != 3 or t.ops[0] != ["i", c.id]:
+                continue
+            tb = f.blocks[t.succs()[0]]
+            stores = [i for i in tb.insts if i.op == "store" and i.ops[1][0] == "i" and f.insts[i.ops[1][1]].op == "getelementptr" and len(f.insts[i.ops[1][1]].ops) == 2]
+            byidx = {}
+            for s_ in stores:
+                g = f.insts[s_.ops[1][1]]
+                byidx.setdefault(tuple(_strip(f, g.ops[1])), []).append(s_)
+            for idx, ss in byidx.items():
+                bs = [s_ for s_ in ss if "BBox" in (f.insts[s_.ops[0][1]].type if s_.ops[0][0] == "i" else (f.args[s_.ops[0][1]]["type"] if s_.ops[0][0] == "a" else ""))]
+                ps = [s_ for s_ in ss if s_ not in bs]
+                if len(bs) != 1 or len(ps) != 1:
+                    continue
+                n += 1
+                inst = {"function": c.src_fn, "at": bs[0].where(), "form": "candidate collection", "config": cfg}
+                if _strip(f, bs[0].ops[0]) == box:
+                    ctx.ok(rule, inst, "the bounding box stored with a candidate is the one the candidate was tested with")
+                else:
+                    ctx.violation(rule, "candbbox:%s:stored" % c.src_fn, "%s stores, next to a candidate polygon, a bounding box other than the one its loop was just tested with; "
+                                  "the later containment counts use a box of another polygon" % c.src_fn, bs[0].where(), inst)
+    return n
